@@ -637,6 +637,9 @@ def sym_chr(i):
         c = int.__index__(i)
         ok = z3.And(i._t >= 0, i._t <= 0x10FFFF)
         if not branch(ok, 0 <= c <= 0x10FFFF):
+            # CPython: beyond the C int range the conversion itself fails first
+            if branch(z3.Or(i._t > 2**31 - 1, i._t < -(2**31)), not -(2**31) <= c <= 2**31 - 1):
+                raise OverflowError("Python int too large to convert to C int")
             raise ValueError("chr() arg not in range(0x110000)")
         return mks(SStr, [i._t], chr(c))
     return chr(i)
